@@ -38,6 +38,11 @@ void GlobalMarker::read(AbstractFile & is) {
 }
 
 void GlobalMarker::write(AbstractFile & os) {
+    /* pre processing */
+    groupNameLength = static_cast<uint32_t>(groupName.size());
+    markerNameLength = static_cast<uint32_t>(markerName.size());
+    descriptionLength = static_cast<uint32_t>(description.size());
+
     ObjectHeader::write(os);
     os.write(reinterpret_cast<char *>(&commentedEventType), sizeof(commentedEventType));
     os.write(reinterpret_cast<char *>(&foregroundColor), sizeof(foregroundColor));
